@@ -315,6 +315,12 @@ var c01Requests = []string{"textDocument/hover", "textDocument/definition", "tex
 
 // c01Positions: token starts and ends, line starts and ends, end of file, (0,0), beyond the line end.
 func c01Positions(text string) [][2]int {
+	ps, _ := c01PositionsSplit(text)
+	return ps
+}
+
+// c01PositionsSplit also returns the positions that lie inside comments.
+func c01PositionsSplit(text string) (all [][2]int, inComments [][2]int) {
 	var ps [][2]int
 	add := func(off int) {
 		if off < 0 || off > len(text) {
@@ -357,7 +363,11 @@ func c01Positions(text string) [][2]int {
 			w := line[j] == '_' || line[j] == '@' || line[j] >= 'a' && line[j] <= 'z' || line[j] >= 'A' && line[j] <= 'Z'
 			pw := j > k && (line[j-1] == '_' || line[j-1] == '@' || line[j-1] >= 'a' && line[j-1] <= 'z' || line[j-1] >= 'A' && line[j-1] <= 'Z')
 			if w != pw {
+				before := len(ps)
 				add(l.Start + j)
+				if len(ps) > before {
+					inComments = append(inComments, ps[len(ps)-1])
+				}
 				nc++
 			}
 		}
@@ -369,7 +379,7 @@ func c01Positions(text string) [][2]int {
 	}
 	ps = append(ps, [2]int{0, 0})
 	add(len(text))
-	return ps
+	return ps, inComments
 }
 
 // validUTF8 replaces invalid bytes so that a client (which holds text, not bytes) can exist at all.
@@ -518,9 +528,20 @@ func genC01(t *rapid.T) C01Case {
 				continue
 			}
 			m := rapid.SampledFrom(c01Requests).Draw(t, "request")
-			ps := c01Positions(d.text)
-			p := ps[rapid.IntRange(0, len(ps)-1).Draw(t, "pos")]
+			ps, cps := c01PositionsSplit(d.text)
 			td := harness.M{"uri": harness.URI(name)}
+			if len(cps) > 0 && rapid.IntRange(0, 5).Draw(t, "commentSweep") == 0 {
+				// hover and definition at every word of the comments (annotation lines are parsed when asked)
+				if len(cps) > 30 {
+					cps = cps[:30]
+				}
+				for _, cp := range cps {
+					pp := harness.J(harness.M{"textDocument": td, "position": harness.Pos(cp[0], cp[1])})
+					c.Steps = append(c.Steps, harness.Call("textDocument/hover", pp), harness.Call("textDocument/definition", pp))
+				}
+				continue
+			}
+			p := ps[rapid.IntRange(0, len(ps)-1).Draw(t, "pos")]
 			var params harness.M
 			switch m {
 			case "workspace/symbol":
